@@ -32,7 +32,7 @@ class Containment(Containment_ToGFA2, Pos, Canonical, Other,
                  "contained" : "to_segment",
                  "container_orient" : "from_orient",
                  "contained_orient" : "to_orient"}
-  PREDEFINED_TAGS = ["MQ", "NM", "ID"]
+  PREDEFINED_TAGS = ["MQ", "NM", "RC", "ID"]
   NAME_FIELD = "ID"
   DATATYPE = {
      "from_segment" : "segment_name_gfa1",
@@ -43,6 +43,7 @@ class Containment(Containment_ToGFA2, Pos, Canonical, Other,
      "overlap" : "alignment_gfa1",
      "MQ" : "i",
      "NM" : "i",
+     "RC" : "i",
      "ID" : "Z",
   }
   REFERENCE_FIELDS = ["from_segment", "to_segment"]
